@@ -6,7 +6,9 @@
                        ->  OK <hex of the output file>
                          | ERR <kind> <hex of the file left behind | "-" when none was created>
                          | PANIC
-     splitcat <max> <hex>  `pna split <archive> --max-size <max>` then `pna concat out <first part>`
+     splitcat <max> <input>  `pna split <archive> --max-size <max>` then `pna concat out <first part>`; the input is
+                           the part chain of the archive argument, written as an input of `concat` (hex,hex,...: the
+                           file named and the files found by name behind it; one hex = a single file; "-" = no file)
                        ->  OK <hex,hex,.. part files>|<hex of the output of concat>  | ERR <kind> | PANIC *)
 From PNA Require Import Base Crc32 Codec Chunk Archive CodecRun Split Concat.
 Open Scope N_scope.
@@ -36,7 +38,7 @@ Definition run_concat (op : bytes) (args : list bytes) : bytes :=
     | None => bad_case
     end
   else if bytes_eqb op (lit "splitcat") then
-    match unhex (nth 1%nat args []) with
+    match parse_input (nth 1%nat args []) with
     | Some a => show_res (fun po => join [comma] (map hex (fst po)) ++ [bar] ++ hex (snd po)) (splitcat (N_ 0%nat) a)
     | None => bad_case
     end
